@@ -3281,6 +3281,12 @@ fn raw_subpacket(id: u8, critical: bool, body: &[u8]) -> Vec<u8> {
 /// `depth` signatures nested through Embedded Signature subpackets (v4: 2-octet area lengths,
 /// v6: 4-octet). Not cryptographically valid; the parser recursion is what is exercised.
 fn nested_embedded_sig(depth: usize, v6: bool, hashed_area: bool) -> Vec<u8> {
+    nested_embedded_sig_shape(depth, v6, hashed_area, 0)
+}
+
+/// `siblings`: 0 = plain chain; 1 = every level carries a complete leaf Embedded Signature subpacket in
+/// front of the one that continues the nesting; 2 = behind it; 3 = both
+fn nested_embedded_sig_shape(depth: usize, v6: bool, hashed_area: bool, siblings: u8) -> Vec<u8> {
     let mpis = [0u8, 1, 1, 0, 1, 1];
     let mut inner: Vec<u8> = if v6 {
         let mut b = vec![6u8, 0x19, 27, 10, 0, 0, 0, 0, 0, 0, 0, 0, 0xAA, 0xBB, 32];
@@ -3292,8 +3298,16 @@ fn nested_embedded_sig(depth: usize, v6: bool, hashed_area: bool) -> Vec<u8> {
         b.extend_from_slice(&mpis);
         b
     };
+    let leaf = raw_subpacket(32, false, &inner);
     for _ in 0..depth {
-        let sp = raw_subpacket(32, false, &inner);
+        let mut sp = vec![];
+        if siblings & 1 != 0 {
+            sp.extend_from_slice(&leaf);
+        }
+        sp.extend(raw_subpacket(32, false, &inner));
+        if siblings & 2 != 0 {
+            sp.extend_from_slice(&leaf);
+        }
         let (h, u): (&[u8], &[u8]) = if hashed_area { (&sp, &[]) } else { (&[], &sp) };
         let mut b = if v6 { vec![6u8, 0x00, 27, 10] } else { vec![4u8, 0x00, 22, 8] };
         if v6 {
@@ -4037,6 +4051,66 @@ fn f5_deep_embedded(ctx: &mut Ctx, env: &Env) {
 /// F5e: what the message object does when it is used *after* a read returned an error
 /// (accessors, another read, verify). Reported under its own family so that it can be judged
 /// separately from panics during parsing / reading proper.
+/// Nested Embedded Signature subpackets with complete leaf siblings at every level (a depth counter that is
+/// reset or mis-counted by a finished sibling lets the nesting through).
+fn f5_deep_embedded_siblings(ctx: &mut Ctx, env: &Env) {
+    let Some(e) = f5_env(env) else { return };
+    for &(depth, stack) in &[(17usize, None), (40, None), (300, Some(2usize << 20)), (1500, Some(2 << 20)), (3000, None)] {
+        for siblings in [1u8, 2, 3] {
+            for v6 in [true, false] {
+                if !v6 && depth > 300 {
+                    continue; // does not fit the 2-octet area length
+                }
+                if !ctx.mine() {
+                    continue;
+                }
+                let sig = nested_embedded_sig_shape(depth, v6, true, siblings);
+                let ver = if v6 { 6 } else { 4 };
+                let st = match stack {
+                    None => "main-thread".to_string(),
+                    Some(n) => format!("thread-stack={}MiB", n >> 20),
+                };
+                let shape = ["", "leaf-first", "leaf-last", "leaf-both"][siblings as usize];
+                ctx.cover(&("F5deep-emb-sib", depth, v6, siblings));
+                ctx.seen("F5.deep.siblings", format!("v{ver}-{shape}-depth{depth}-{st}"));
+                let desc = format!("F5deep:embedded-signature-depth={depth}/v{ver}/hashed/{shape}/{st}/detached");
+                let sb = pkt5(2, &sig);
+                let (p4, p6) = (e.pub4, e.pub6);
+                let work = || {
+                    let mut o = Obs::default();
+                    match DetachedSignature::from_bytes(&sb[..]) {
+                        Ok(s) => {
+                            exercise_detached(&s, &[p4, p6], b"deep", &mut o);
+                            let c = s.clone();
+                            let _ = c == s;
+                            drop(c);
+                        }
+                        Err(_) => o.errs += 1,
+                    }
+                    o
+                };
+                let o = run_case(
+                    ctx,
+                    "F5",
+                    &desc,
+                    || json!({"api": "DetachedSignature::from_bytes -> accessors / to_bytes / verify / clone / drop", "depth": depth, "shape": shape, "input_len": sb.len(), "stack": st}),
+                    || match stack {
+                        None => Some(work()),
+                        Some(n) => on_thread(n, "DetachedSignature::from_bytes on a worker thread", work),
+                    },
+                );
+                if let Some(Some(o)) = o {
+                    o.tally(ctx, "F5deep");
+                    // the documented nesting limit is 16: deeper input is refused, not parsed
+                    if o.parsed > 0 && depth > 16 {
+                        ctx.tally("F5deep.siblings.parsed-beyond-16-levels", 1);
+                    }
+                }
+            }
+        }
+    }
+}
+
 fn f5_after_error(ctx: &mut Ctx, e: &F5Env<'_>, streams: &[(String, Vec<u8>)]) {
     const ACCESSORS: [&str; 9] = [
         "packet_header", "literal_data_header", "is_one_pass_signed", "verify", "read-again", "fill_buf-again", "verify_nested", "decompress", "drop",
@@ -5476,6 +5550,7 @@ pub fn run(ctx: &mut Ctx) {
         // first: cases that may take the process down
         f5_deep(ctx, &env);
         f5_deep_embedded(ctx, &env);
+        f5_deep_embedded_siblings(ctx, &env);
     }
     if want("F1") {
         f1(ctx, &env);
